@@ -14,7 +14,7 @@
     cursor reports a void record and changes nothing (C11_second_delete_void). *)
 From Coq Require Import List Arith Bool.
 From DV Require Import Model.Base Model.Parser Model.Header Model.Readers Model.Mutate Spec.NameSpec Spec.PacketSpec Spec.RecordSpec Spec.PlainSpec
-  Proofs.Hoare Proofs.WalkSkip Proofs.PlainWf Proofs.InsertSpec Proofs.DeleteInv Proofs.DeleteWalk.
+  Proofs.Hoare Proofs.WalkSkip Proofs.PlainWf Proofs.InsertSpec Proofs.DeleteInv Proofs.Totality Proofs.DeleteWalk.
 Import ListNotations.
 
 Theorem C11_walk_terminates : forall (A : Type) (D : A -> bool) (l : list A),
@@ -65,3 +65,11 @@ Print Assumptions C11_section_offsets.
 
 Example C11_first_off_means : forall l, first_off l = match l with [] => None | rx :: _ => Some (rv_off (fst rx)) end.
 Proof. reflexivity. Qed.
+
+(** and that delete does succeed (no error, no Panic outcome) *)
+Theorem C11_delete_succeeds : forall v it qls qt lA lN lR r x,
+  dinv v -> reading (pp_packet v) qls qt lA lN lR -> In (r, x) (lA ++ lN ++ lR) -> is_opt r = false ->
+  it_offset it = Some (rv_off r) -> it_name_end it = rv_name_end r -> it_offset_next it = rv_name_end r + 10 + rv_rdlen r ->
+  exists s', m_delete (v, it) = (s', Ok tt).
+Proof. exact delete_total. Qed.
+Print Assumptions C11_delete_succeeds.
